@@ -16,6 +16,12 @@ def table(rng, n):
         om = rng.sample(MODS, rng.choice([0, 0, 1, 2]))
         ok = rng.choice(NM)
         ovs.append((im, ik, om, ok))
+    # an entry that maps a combination to itself exempts it from a smaller override of the same key (the most modifiers win)
+    if rng.random() < 0.3:
+        im, ik, _om, _ok = rng.choice(ovs)
+        extra = [m for m in MODS if m not in im]
+        im2 = im + rng.sample(extra, rng.choice([1, 1, 2]))
+        ovs.insert(rng.randint(0, len(ovs)), (im2, ik, list(im2), ik))
     return ovs
 
 
